@@ -15,4 +15,5 @@ rm -f $W/sentinel-core/tests/$N.rs
 B=$(cd $W && cargo test --workspace --no-fail-fast --offline 2>&1 | grep -E "^test result" | head -1)
 git -C $W checkout -q -- .
 echo "DEMO_UNCHANGED=$U DEMO_CHANGED=$C BASELINE_CHANGED=[$B]"
+echo "$N DEMO_UNCHANGED=$U DEMO_CHANGED=$C BASELINE_CHANGED=[$B]" >> /tmp/confirm-summary.txt
 grep -E "^test .*FAILED|panicked" /tmp/confirm-c.log | head -5
